@@ -2,8 +2,8 @@ CONSTANTS Writers = {1, 2, 3}
   MsgsPerWriter = 2
   Parts = 2
   UseLock = TRUE
-  LockPerPart = FALSE
+  LockPerPart = TRUE
 INIT Init
 NEXT Next
-INVARIANTS OneTransportWriteAtATime WholeMessages PerWriterOrder ExactlyOnce
+INVARIANTS OneTransportWriteAtATime WholeMessages
 CHECK_DEADLOCK FALSE
